@@ -217,3 +217,35 @@ func VX_C05_RawSizeIndependent(args []int) {
 	vxAssert(g1.Size() == g0.Size() && g1.Size() == size0, "Unpack size independent of earlier traffic")
 	vxCover("c05.size.independent")
 }
+
+func init() { vxRegister("VX_C05_ReusedMessage", VX_C05_ReusedMessage) }
+
+// VX_C05_ReusedMessage: what a frame decodes to does not depend on the frames
+// decoded before into the same (reset) message: two back-to-back frames are
+// decoded into one reused message and into fresh ones. args: nVal
+func VX_C05_ReusedMessage(args []int) {
+	mk := func(seq int32, kv ...string) Message {
+		m := NewMessage()
+		m.SetSeq(seq)
+		m.SetMtype(1)
+		m.SetServiceMethod("/m")
+		for k := 0; k+1 < len(kv); k += 2 {
+			m.Meta().Add(kv[k], kv[k+1])
+		}
+		return m
+	}
+	v := vxString("v", args[0])
+	m1 := mk(1, "flag", v, "trace", "xyz", "debug", "t"+v)
+	m2 := mk(2, "flag", "", "trace", "xyz", "debug", "")
+	w := &vxBuf{}
+	p := RawProtoFunc(w)
+	vxAssume(p.Pack(m1) == nil && p.Pack(m2) == nil)
+	reused := NewMessage(vxBytesBody())
+	vxAssert(p.Unpack(reused) == nil, "frame 1 decodes")
+	reused.Reset(vxBytesBody())
+	vxAssert(p.Unpack(reused) == nil, "frame 2 decodes into the reused message")
+	vxAssert(reused.Seq() == 2 && reused.Meta().Len() == 3, "frame 2 header")
+	vxAssert(string(reused.Meta().Peek("flag")) == "" && string(reused.Meta().Peek("debug")) == "" && string(reused.Meta().Peek("trace")) == "xyz", "frame 2's metadata does not depend on the frame decoded before")
+	vxAssert(string(reused.Meta().QueryString()) == string(m2.Meta().QueryString()), "re-encoding the decoded metadata gives frame 2's metadata")
+	vxCover("c05.reused")
+}
